@@ -167,6 +167,9 @@ func checkC01(ci any, info *CaseInfo) string {
 	if po.Err != nil {
 		return fmt.Sprintf("%s parser rejected the encoder's own output %q (%x): %v", c.Format, trunc(data), trunc(data), po.Err)
 	}
+	if m := rec.RetainedIntact(); m != "" {
+		return fmt.Sprintf("%s parser on %q: %s", c.Format, trunc(data), m)
+	}
 	got, err := model.Tree(rec.Evs)
 	if err != nil {
 		return fmt.Sprintf("%s parser produced a malformed event stream from %x: %v", c.Format, trunc(data), err)
